@@ -33,11 +33,12 @@ TRUSTED = ['numpy', 'pandas', 'neurodsp.timefrequency.amp_by_time']
 @st.composite
 def strategy(draw, tier):
     case = draw(gen.st_analysis_case())
-    case['via'] = draw(st.sampled_from(['features', 'features', 'features', 'shape', 'rename', 'buffer']))
+    case['via'] = draw(st.sampled_from(['features', 'features', 'features', 'shape', 'shape', 'rename', 'buffer']))
+    case['shape_n_cycles'] = draw(st.sampled_from([None, None, 2, 4, 5]))
     return case
 
 
-def expected_shape(x, df_s, center, fs, f_range):
+def expected_shape(x, df_s, center, fs, f_range, n_cycles=3):
     """documented definitions on the original signal; df_s holds the sample columns"""
     nm = ref.names(center)
     last = df_s[nm['last']].values.astype(int)
@@ -68,7 +69,7 @@ def expected_shape(x, df_s, center, fs, f_range):
     out['volt_amp'] = (out['volt_decay'] + out['volt_rise']) / 2
     out['time_rdsym'] = out['time_rise'] / out['period']
     out['time_ptsym'] = out['time_peak'] / (out['time_peak'] + out['time_trough'])
-    amp = ref.ref_band_amp(x, fs, f_range)
+    amp = ref.ref_band_amp(x, fs, f_range, n_cycles)
     out['band_amp'] = np.array([np.mean(amp[a:b]) for a, b in zip(last, nxt)])
     return out
 
@@ -81,6 +82,7 @@ def check(case, rec):
     x = gen.render_signal(case['sig'])
     pipeline.expected_cycles(case, x)
     rs = case.get('return_samples', True)
+    band_n = 3
     if case['method'] == 'amp':
         pipeline.trusted_burst_mask(case, x)
     if case['via'] == 'rename':
@@ -110,8 +112,19 @@ def check(case, rec):
             df_s = guarded(compute_features, buf, case['fs'], tuple(case['f_range']), **gen.cf_kwargs(case, return_samples=True))
         df = df_s
     elif case['via'] == 'shape':
-        df_s = guarded(compute_shape_features, x.copy(), case['fs'], tuple(case['f_range']), center_extrema=case['center'],
-                       find_extrema_kwargs=gen.copy_json(case.get('fek')))
+        nc = case.get('shape_n_cycles')
+        if nc:
+            # the documented n_cycles argument of compute_shape_features: length of the band-amplitude filter (and of the default
+            # extrema filter when no find_extrema_kwargs are given)
+            eff = dict(case, fek=case.get('fek') if case.get('fek') is not None else {'filter_kwargs': {'n_cycles': nc}})
+            pipeline.expected_cycles(eff, x)
+            ref.ref_band_amp(x, case['fs'], tuple(case['f_range']), nc)
+            df_s = guarded(compute_shape_features, x.copy(), case['fs'], tuple(case['f_range']), center_extrema=case['center'],
+                           find_extrema_kwargs=gen.copy_json(case.get('fek')), n_cycles=nc)
+            band_n = nc
+        else:
+            df_s = guarded(compute_shape_features, x.copy(), case['fs'], tuple(case['f_range']), center_extrema=case['center'],
+                           find_extrema_kwargs=gen.copy_json(case.get('fek')))
         df = df_s
     else:
         df = pipeline.analyse(case, x, return_samples=rs)
@@ -127,7 +140,7 @@ def check(case, rec):
         v = df_s[nm[k]].values
         if v.dtype.kind not in 'iu' or v.min() < 0 or v.max() >= len(x):
             raise Violation('bad-sample-column', nm[k])
-    exp = expected_shape(x, df_s, case['center'], case['fs'], tuple(case['f_range']))
+    exp = expected_shape(x, df_s, case['center'], case['fs'], tuple(case['f_range']), band_n)
     for col in pipeline.SHAPE_COLS:
         if col not in df.columns:
             raise Violation('missing-column', col)
@@ -171,6 +184,15 @@ def check_helpers(case, rec):
     sym = guarded(compute_symmetry, sub, x.copy())
     period, time_peak, time_trough = guarded(compute_durations, sub)
     volt_peak, volt_trough = guarded(compute_extrema_voltage, sub, x.copy())
+    if case.get('pass_durations'):
+        # the documented optional arguments: durations computed beforehand, handed over as plain arrays / lists / Series
+        import pandas as pd
+        as_ = {1: lambda v: np.asarray(v), 2: lambda v: list(np.asarray(v)), 3: lambda v: pd.Series(np.asarray(v), index=sub.index)}[case['pass_durations']]
+        sym = guarded(compute_symmetry, sub, x.copy(), period=as_(period), time_peak=as_(time_peak), time_trough=as_(time_trough))
+        for col in ('time_rdsym', 'time_ptsym', 'time_rise'):
+            if len(sym[col]) != len(sub):
+                raise Violation('helpers:%s-length' % col, '%d values for %d rows (durations passed as %s)' % (len(sym[col]), len(sub), type(as_(period)).__name__))
+        rec.label('durations-passed:%s' % type(as_(period)).__name__)
     if not ref.frames_equal(sub, keep)[0]:
         raise Violation('helpers:input-modified', '')
     exp = expected_shape(x, sub, 'peak', case['fs'], tuple(case['f_range']))
@@ -190,6 +212,7 @@ def strat_helpers(draw, tier):
     case = draw(gen.st_analysis_case(methods=('cycles',), thresholds=False))
     case['drop'] = draw(st.one_of(st.just(0), st.integers(1, 2 ** 14 - 1), st.integers(1, 2 ** 14 - 1)))
     case['reset'] = draw(st.booleans())
+    case['pass_durations'] = draw(st.sampled_from([0, 0, 1, 1, 3]))       # '1d array' is the documented type: arrays and Series, no lists
     return case
 
 
